@@ -108,3 +108,106 @@ class columns_rows:
         yield "at-least-one-row", result >= 1
         yield "no-child-needs-more", forall(0, m, lambda i: result >= drawn_rows(old, geo, i, a.focus))
         yield "the-tallest-child-or-one", either(result == 1, neg(forall(0, m, lambda i: neg(result == drawn_rows(old, geo, i, a.focus)))))
+
+
+# ================================================================================================ get_cursor_coords
+
+
+def _focus_visible(s, geo):
+    """Fit precondition on the focus column: if it is displayed at all it has a positive width."""
+    fp = s._contents._focus
+    return implies(both(0 <= fp, fp < Q.seq_len(geo[0])), Q.seq_get(geo[0], fp) > 0)
+
+
+def gen_sum_is_X(rec, widths, d, upto):
+    """The sum the code computed with a filtered generator over widths[:upto] is X(upto):
+    (1) obligation: its summand at every k < upto is X's summand; (2) then, by lemma
+    `pointwise-equal-prefix-sums` (both are prefix sums from 0), the sums are equal."""
+    pointwise = forall(0, upto, lambda k: rec.term(k) == ite(Q.seq_get(widths, k) > 0, Q.seq_get(widths, k) + d, 0))
+    yield "the-summed-terms-are-width-plus-divider-of-the-visible-columns", pointwise
+    cur().assume(implies(both(0 <= upto, upto <= Q.seq_len(widths)), rec.G(upto) == X(upto)))
+
+
+@contract(CO + "Columns.get_cursor_coords", property="C09", inline=INL, replayable=False)
+class columns_gcc:
+    """(i) the reported cursor is the focus child's, shifted right by X(focus)."""
+
+    self_shape = COLUMNS
+    params = dict(size=SIZE)
+    result = Opt(Tup(Int, Int))
+    invariant = staticmethod(pile_ri)
+    raises = (IndexError,)
+
+    def requires(s, a):
+        geo = sizes_of(s, a.size, True)
+        return both(columns_wf(s), size_ok(a.size), _focus_visible(s, geo))
+
+    def on_raise(old, s, a, exc):
+        yield "only-an-empty-container-has-no-focus", n_items(old) == 0
+
+    def ensures(old, s, a, result):
+        st = cur()
+        W = PROTOCOLS["Widget"]
+        yield "non-empty", n_items(old) > 0
+        fp = old._contents._focus
+        w = item_at(old, fp)[0]
+        geo = sizes_of(old, a.size, True)
+        widths = geo[0]
+        if not W.call_quiet(st, w, "selectable", {}):
+            yield "unselectable-focus-child-reports-none", is_none(result)
+        elif not W.hasattr(None, st, w, "get_cursor_coords"):
+            yield "no-cursor-protocol", is_none(result)
+        elif Q.seq_len(widths) <= fp:
+            yield "focus-column-not-displayed", is_none(result)
+        else:
+            for rec in st.ghost.get("gen_sums", []):
+                yield from gen_sum_is_X(rec, widths, old.dividechars, fp)
+            cs = Q.seq_get(geo[2], fp)
+            cc = W.call_quiet(st, w, "get_cursor_coords", dict(size=cs))
+            yield "child-cursor-shifted-by-the-columns-to-its-left", opt_eq_shift(result, cc, X(fp), 0)
+        yield "nothing-written", both(s._contents._focus == fp, n_items(s) == n_items(old))
+
+
+# ================================================================================================ get_pref_col
+
+
+@contract(CO + "Columns.get_pref_col", property="C09", inline=INL, replayable=False)
+class columns_pref_col:
+    """The preferred column is the focus child's, shifted right by X(focus) (same translation as the cursor)."""
+
+    self_shape = COLUMNS
+    params = dict(size=SIZE)
+    result = Opt(Int)
+    invariant = staticmethod(pile_ri)
+    raises = (IndexError,)
+
+    def requires(s, a):
+        geo = sizes_of(s, a.size, True)
+        return both(columns_wf(s), size_ok(a.size), all_visible(geo[0]))
+
+    def on_raise(old, s, a, exc):
+        yield "only-an-empty-container-has-no-focus", n_items(old) == 0
+
+    def ensures(old, s, a, result):
+        st = cur()
+        W = PROTOCOLS["Widget"]
+        yield "non-empty", n_items(old) > 0
+        fp = old._contents._focus
+        w = item_at(old, fp)[0]
+        geo = sizes_of(old, a.size, True)
+        widths = geo[0]
+        if Q.seq_len(widths) <= fp:
+            yield "focus-column-not-displayed", eq(result, 0)
+            return
+        x_all_visible(widths, old.dividechars, fp)
+        cs = Q.seq_get(geo[2], fp)
+        child = W.call_quiet(st, w, "get_pref_col", dict(size=cs)) if W.hasattr(None, st, w, "get_pref_col") else None
+        if not is_none(child):
+            yield "childs-preferred-column-shifted-by-the-columns-to-its-left", eq(result, val(child) + X(fp))
+        elif not is_none(old.pref_col):
+            yield "else-the-remembered-column", eq(result, val(old.pref_col))
+        elif W.call_quiet(st, w, "selectable", {}):
+            yield "else-the-middle-of-the-focus-column", eq(result, X(fp) + Q.seq_get(widths, fp) // 2)
+        else:
+            yield "else-none", is_none(result)
+        yield "nothing-written", both(s._contents._focus == fp, n_items(s) == n_items(old), opt_same(s.pref_col, old.pref_col))
